@@ -221,6 +221,9 @@ func (s *SignedAccumulator) UnmarshalVerify(pk *gabikeys.PublicKey) (*Accumulato
 		return s.Accumulator, nil
 	}
 	msg := &Accumulator{}
+	if pk.ECDSA == nil {
+		return nil, errors.New("public key does not support revocation")
+	}
 	if pk.Counter != s.PKCounter {
 		return nil, errors.New("wrong public key")
 	}
